@@ -7,4 +7,5 @@ import GeoVerif.Ops.Reservoir
 import GeoVerif.Ops.Pressure
 import GeoVerif.Ops.Hip
 import GeoVerif.Ops.Ramey
+import GeoVerif.Ops.ReadParam
 /-! Everything the driver needs (import-free models + ops). -/
